@@ -228,13 +228,17 @@ func HarnessC06Seq() {
 	ctx := context.Background()
 	for i := 0; i < 3; i++ {
 		r := c06Rec(i)
-		// seven attributes: the last two live in the record's overflow slice
-		for a := 0; a < 7; a++ {
-			r.AddAttributes(log.Int(c06Keys[a], a))
+		if i == 0 {
+			// seven attributes: the last two live in the record's overflow slice
+			for a := 0; a < 7; a++ {
+				r.AddAttributes(log.Int(c06Keys[a], a))
+			}
 		}
 		b.OnEmit(ctx, &r)
 		r.SetBody(log.IntValue(100 + i)) // later changes to the caller's record
-		r.AddAttributes(log.Int(c06Keys[6], 99), log.Int(c06Keys[0], 98))
+		if i == 0 {
+			r.AddAttributes(log.Int(c06Keys[6], 99), log.Int(c06Keys[0], 98))
+		}
 	}
 	ferr := b.ForceFlush(ctx)
 	vndAssert(ferr == nil, "flush-returns-nil")
